@@ -16,6 +16,9 @@ func (g *Gen) Idiom() *Program {
 	if g.Scopey && pick >= 46 {
 		pick = g.R.Intn(46) // the array-concatenation families belong to the C02 stream
 	}
+	if pick >= 31 && pick < 45 {
+		pick = 24 + (pick-31)%4 // the families added for independent seeds (rounds 2 and 3) get the unused slots
+	}
 	switch pick {
 	case 0:
 		// the caller has a local of the same name as the callee's free variable
@@ -249,6 +252,34 @@ func (g *Gen) Idiom() *Program {
 			Defn("f", nil, "", For("", Fn(nil, "", Var(y)), CallN("<", Int(1), Int(0)), Int(0)),
 				Let(false, nil, nil, Def("g", Fn(nil, "", Set(y, Int(k)))), CallN("g"), Def(y, Int(7)), CallN("list", CallN("g"), Var(y)))),
 			CallN("f"), Var(y)}}
+	case 28, 29, 30:
+		// effect order inside map: the function is applied to the elements first to last (list and array),
+		// observed through trace, through a variable the function assigns, and through the result itself
+		var coll *Node
+		switch g.R.Intn(4) {
+		case 0:
+			coll = Quote(&Datum{IsLst: true, List: []*Datum{{IsInt: true, I: 1}, {IsInt: true, I: 2}, {IsInt: true, I: k + 2}}})
+		case 1:
+			coll = CallN("list", Int(1), Int(2), Int(k+2))
+		case 2:
+			coll = CallN("cons", Int(1), CallN("cons", Int(k+1), Quote(&Datum{IsLst: true})))
+		default:
+			coll = Arr(Int(1), Int(2), Int(k+2))
+		}
+		switch g.R.Intn(4) {
+		case 0:
+			return &Program{Forms: []*Node{CallN("map", Var("trace"), coll)}}
+		case 1:
+			return &Program{Forms: []*Node{CallN("map", Fn([]string{x}, "", CallN("trace", Var(x)), CallN("+", Var(x), Int(1))), coll)}}
+		case 2:
+			return &Program{Forms: []*Node{Def("a", Arr()),
+				Def("r", CallN("map", Fn([]string{x}, "", Set("a", CallN("append", Var("a"), Var(x))), CallN("len", Var("a"))), coll)),
+				CallN("list", Var("a"), Var("r"))}}
+		default:
+			return &Program{Forms: []*Node{Def(y, Int(0)),
+				Defn("f", []string{x}, "", Set(y, CallN("+", CallN("*", Var(y), Int(10)), Var(x)))),
+				CallN("list", CallN("map", Var("f"), coll), Var(y))}}
+		}
 	case 46, 47, 48:
 		// two concats onto the SAME array, then the first result is inspected; the array comes from append
 		// (directly, twice, or grown in a loop), from a literal, or from map
